@@ -142,7 +142,10 @@ func (w *World) Resolve(h *sdl.Instance, pt *sdl.Point) *Resolution {
 	switch pt.Sel {
 	case sdl.SelType:
 		for _, i := range w.P.Instances {
-			if assignable(w.Types[i.Type], pt) {
+			// candidates are found by their declared type; what is injected is the published
+			// version, which a post-processor may have replaced by an object of another type
+			// (only in acyclic programs, see genWrapName)
+			if assignable(w.Types[i.Type], pt) && assignable(w.Types[w.pubType(i.ID)], pt) {
 				cands = append(cands, i.ID)
 			}
 		}
